@@ -1,0 +1,79 @@
+//go:build verif
+
+// Machine-checked contracts for package authenticode (comment-only; see /verif/DESIGN.md).
+
+package authenticode
+
+//@ func checkSignature
+//@   property C02
+//@   ghost psdG *pkcs7.ContentInfoSignedData = nil
+//@   ghost cmsOK bool = false
+//@   ghost tsOK bool = false
+//@   ghost indirectFromSignedContent bool = false
+//@   on call pkcs7.Unmarshal(b) ret (p, e): psdG = p
+//@   on call (*pkcs7.SignedData).Verify(sd, ext, skip) ret (s, e): cmsOK = (e == nil && sd == addr(psdG.Content) && ext == nil && !skip)
+//@   on call pkcs9.VerifyOptionalTimestamp(_) ret (t, e): tsOK = (e == nil && cmsOK)
+//@   on call (pkcs7.ContentInfo).Unmarshal(ci, dest) ret (e): indirectFromSignedContent = (e == nil && dest == iface(indirect))
+//@   ensures @cms_signature_and_message_digest_verified ret1 == nil ==> cmsOK && tsOK
+//@   ensures @indirect_data_is_the_signed_content ret1 == nil ==> indirectFromSignedContent && ret0.Indirect == indirect
+//@
+//@ func checkSignatures
+//@   property C02
+//@   ghost curDigest *PEDigest = nil
+//@   ghost curHash crypto.Hash = 0
+//@   ghost checked set = emptyset()
+//@   ghost pagesChecked set = emptyset()
+//@   on call DigestPE(_, h, _) ret (d, e): curDigest = d; curHash = h
+//@   on call crypto/hmac.Equal(a, b) ret (r): \
+//@        checked = ite(r && curDigest != nil && sameslice(a, curDigest.Imprint) && sameslice(b, values[curHash]), setadd(checked, curHash), checked); \
+//@        pagesChecked = ite(r && curDigest != nil && sameslice(a, curDigest.PageHashes) && sameslice(b, phvalues[curHash]), setadd(pagesChecked, curHash), pagesChecked)
+//@   ghost sigHashes set = emptyset()
+//@   on call builtin append(sl, e): sigHashes = setadd(sigHashes, e[0].ImageHashFunc)
+//@   loop 0 sig "for len(blob) != 0" invariant curDigest == nil && forall(h, in(sigHashes, h) ==> inmap(allhashes, h) && inmap(values, h))
+//@   loop 0 invariant allocated(sigs)
+//@   loop 1 sig "for hash := range allhashes" invariant forall(h, visited(h) && values[h] != nil ==> in(checked, h))
+//@   loop 1 invariant forall(h, visited(h) && phvalues[h] != nil ==> in(pagesChecked, h))
+//@   ensures @image_digest_recomputed_and_compared_for_every_hash_in_use ret1 == nil && image != nil ==> \
+//@        forall(h, inmap(allhashes, h) && values[h] != nil ==> in(checked, h))
+//@   ensures @page_hashes_recomputed_and_compared ret1 == nil && image != nil ==> \
+//@        forall(h, inmap(allhashes, h) && phvalues[h] != nil ==> in(pagesChecked, h))
+//@   ensures @every_accepted_signature_contributes_its_hash ret1 == nil ==> forall(h, in(sigHashes, h) ==> inmap(allhashes, h) && inmap(values, h))
+//@
+//@ func VerifyPE
+//@   property C02
+//@   before call checkSignatures(_, img): assert @image_passed_unless_digests_skipped !skipDigests ==> img == r && r != nil
+//@
+//@ func DigestMSI
+//@   property C02
+//@   ensures @imprint_present_on_success err == nil ==> imprint != nil
+//@
+//@ func VerifyMSI
+//@   property C02
+//@   ghost psdG *pkcs7.ContentInfoSignedData = nil
+//@   ghost cmsOK bool = false
+//@   ghost recomputed []byte = nil
+//@   ghost prehashG []byte = nil
+//@   ghost digestOK bool = false
+//@   ghost exOK bool = false
+//@   on call pkcs7.Unmarshal(b) ret (p, e): psdG = p
+//@   on call (*pkcs7.SignedData).Verify(sd, ext, skip) ret (s, e): cmsOK = (e == nil && sd == addr(psdG.Content) && ext == nil && !skip)
+//@   on call DigestMSI(c, h, ex) ret (i, p, e): recomputed = i; prehashG = p
+//@   on call crypto/hmac.Equal(a, b) ret (r): \
+//@        digestOK = digestOK || (r && recomputed != nil && sameslice(a, recomputed) && sameslice(b, indirect.MessageDigest.Digest)); \
+//@        exOK = exOK || (r && sameslice(a, prehashG) && sameslice(b, exsig))
+//@   ensures @cms_signature_verified ret1 == nil ==> cmsOK
+//@   ensures @content_digest_recomputed_and_compared ret1 == nil && !skipDigests ==> digestOK
+//@   ensures @extended_digest_compared_when_present ret1 == nil && !skipDigests && exsig != nil ==> exOK
+//@
+//@ func VerifyCab
+//@   property C02
+//@   ghost psdG *pkcs7.ContentInfoSignedData = nil
+//@   ghost cmsOK bool = false
+//@   ghost recomputed *cabfile.CabinetDigest = nil
+//@   ghost digestOK bool = false
+//@   on call pkcs7.Unmarshal(b) ret (p, e): psdG = p
+//@   on call (*pkcs7.SignedData).Verify(sd, ext, skip) ret (s, e): cmsOK = (e == nil && sd == addr(psdG.Content) && ext == nil && !skip)
+//@   on call cabfile.Digest(_, _) ret (d, e): recomputed = d
+//@   on call crypto/hmac.Equal(a, b) ret (r): digestOK = (r && recomputed != nil && sameslice(a, recomputed.Imprint) && sameslice(b, indirect.MessageDigest.Digest))
+//@   ensures @cms_signature_verified ret1 == nil ==> cmsOK
+//@   ensures @content_digest_recomputed_and_compared ret1 == nil && !skipDigests ==> digestOK
